@@ -463,15 +463,61 @@ def classify_divergence(w, live):
                 f = parse_fp(fp)
                 if f and f["recs"].get(n_ev, ("", ""))[0] == "f":
                     return "rewrapped-commit-rollback"
-    # a commit on somebody's path is blocked (Failed, no epoch) at a lagging client
+    # a commit is blocked (Failed, no epoch) at a client that was first offered it while still BEHIND the commit's
+    # parent epoch (the event ran ahead of its predecessor); a commit that could not be opened although the client was
+    # at or past its epoch is a different matter (e.g. the exporter-secret look-back) and is not excused here
+    epoch_before = {}
+    prev_fp = {}
+    for cmd, res, fp in w.trace:
+        t = cmd.split()
+        c = int(t[1]) if len(t) > 1 and t[1].isdigit() and t[0] not in ("rewrap", "retag") else None
+        if t[0] == "deliver" and c is not None:
+            key = (c, int(t[2]))
+            if key not in epoch_before and prev_fp.get(c) is not None:
+                epoch_before[key] = prev_fp[c]["epoch"]
+        if c is not None:
+            f = parse_fp(fp)
+            if f is not None:
+                prev_fp[c] = f
     for c, f in live.items():
         for n, e in commits.items():
             rec = f["recs"].get(n)
-            if rec and rec[0] == "f" and rec[1] == "-":
+            # … and it is the very commit this client needs next (created on the state the client is stuck in)
+            if rec and rec[0] == "f" and rec[1] == "-" and e.get("parent_epoch") is not None and e.get("parent_token") == f["token"] \
+                    and epoch_before.get((c, n)) is not None and epoch_before[(c, n)] < e["parent_epoch"]:
                 return "handshake-before-predecessor-blocked"
-    # restart between applying a commit and a better competitor
-    if any(cmd.startswith("restart") for cmd, _, _ in w.trace):
-        return "hydrated-timestamp-zero"
+    # restart between applying a commit and the arrival of a better competitor for the same epoch
+    applied_at = {}
+    restarts = {}
+    for i, (cmd, res, fp) in enumerate(w.trace):
+        t = cmd.split()
+        if t[0] == "restart" and res.startswith("ok"):
+            restarts.setdefault(int(t[1]), []).append(i)
+        if t[0] == "deliver" and res.split()[0] == "commit":
+            applied_at.setdefault((int(t[1]), int(t[2])), i)
+    for i, (cmd, res, fp) in enumerate(w.trace):
+        t = cmd.split()
+        if t[0] == "deliver" and res.split()[0] in ("unprocessable", "previously_failed"):
+            c, m = int(t[1]), int(t[2])
+            em = commits.get(m)
+            if em is None:
+                continue
+            for (c2, n), j in applied_at.items():
+                en = commits.get(n)
+                if c2 == c and en is not None and n != m and en["parent_token"] == em["parent_token"] and j < i \
+                        and (em["ts"], em["idnum"]) < (en["ts"], en["idnum"]) and any(j < r < i for r in restarts.get(c, [])):
+                    return "hydrated-timestamp-zero"
+    # a better sibling arrived when the client had already advanced more epochs past the fork than it keeps snapshots
+    # (the property speaks about forks up to the retention depth only)
+    for (c, m), ep in epoch_before.items():
+        em = commits.get(m)
+        if em is None or em.get("parent_epoch") is None or c not in live:
+            continue
+        for (c2, n), j in applied_at.items():
+            en = commits.get(n)
+            if c2 == c and en is not None and n != m and en["parent_token"] == em["parent_token"] \
+                    and (em["ts"], em["idnum"]) < (en["ts"], en["idnum"]) and ep - em["parent_epoch"] > w.meta.get("retention", 5):
+                return "fork-deeper-than-retention"
     for c, f in live.items():
         if f["snaps"] == 0 and w.meta.get("retention", 5) < 3:
             return "fork-deeper-than-retention"
